@@ -544,6 +544,13 @@ func (H) Execute(x *common.Exec, s any) {
 	}
 	ctx, cancel := context.WithCancel(context.Background())
 	defer cancel()
+	defer func() { // end the targets' servers so that no goroutine of this run stays blocked
+		for _, a := range agents {
+			if a != nil {
+				a.Close()
+			}
+		}
+	}()
 	var collectorErr error
 	collectorDone := false
 	// One "operations" task owns the agents: it starts them, starts the
